@@ -386,5 +386,12 @@ def extra_validation():
         (["-d", "doc", "doc"], '[[true, false]]\n', 0, ["[[true, false]]"]),
         # numerically equal values of different JSON types in different documents of one stream
         (["-d", "doc", "string(doc.v)"], '{"v": 3}\n{"v": 3.0}\n{"v": 3}\n', 0, ['"3"', '"3.0"', '"3"']), (["-d", "doc", "[doc.v]"], '{"v": 1.0}\n{"v": 1}\n{"v": true}\n', 0, ["[1.0]", "[1]", "[true]"]),
-        (["-d", "doc", "doc.v == 0"], '{"v": 0}\n{"v": false}\n', 0, None)]]
+        (["-d", "doc", "doc.v == 0"], '{"v": 0}\n{"v": false}\n', 0, None),
+        # maps keyed by bool / int / uint at several depths: JSON object keys are the JSON spelling of the key
+        (["-n", '{true: "yes", false: "no"}'], "", 0, ['{"true": "yes", "false": "no"}']), (["-n", '{1: "a", 2u: "b"}'], "", 0, ['{"1": "a", "2": "b"}']),
+        (["-n", "[{true: 1}]"], "", 0, ['[{"true": 1}]']), (["-n", '{"a": {false: [true]}}'], "", 0, ['{"a": {"false": [true]}}']),
+        (["-d", "doc", "{doc.v: doc.v}"], '{"v": true}\n{"v": 1}\n', 0, ['{"true": true}', '{"1": 1}']),
+        # characters that Python's str.splitlines() treats as line breaks but JSON allows unescaped inside strings: one document per \n-terminated line
+        ([".a"], '{"a": "x\u2028y"}\n{"a": "z"}\n', 0, ['"x\\u2028y"', '"z"']), ([".a"], '{"a": "x\u0085y"}\n{"a": "u\u2029v"}\n', 0, ['"x\\u0085y"', '"u\\u2029v"']),
+        (["-b", ".a == 'p\u2028'"], '{"a": "p\u2028"}\n{"a": "q"}\n', 1, ["true", "false"]), ([".a"], '{"a": 1}\r\n{"a": 2}\r\n', 0, ["1", "2"])]]
     return ws
